@@ -9,6 +9,7 @@ import (
 	"fmt"
 	"math"
 	"reflect"
+	"strconv"
 	"strings"
 	"time"
 
@@ -177,6 +178,18 @@ func build() *fixture {
 	nonNum := append(append(append([]val{}, str...), boolv...), append(obj, lst...)...)
 	nonStr := append(append(append([]val{}, num...), boolv...), append(obj, lst...)...)
 
+	// numbers that are no value of an integer type: a fraction, and the neighbours of the type's range
+	outOf := func(lo, hi float64) []val {
+		out := append([]val{}, nonNum...)
+		for _, f := range []float64{1.5, -0.5, lo - 1, hi + 1, hi + 257, 1e300} {
+			if f >= lo && f <= hi && f == math.Trunc(f) {
+				continue
+			}
+			lit := strconv.FormatFloat(f, 'f', -1, 64)
+			out = append(out, val{lit, f, nil})
+		}
+		return out
+	}
 	add := func(t argType) { fx.types = append(fx.types, t) }
 	qo.FieldFunc("echo_lists", func(args struct {
 		Ids    []int64
@@ -200,27 +213,27 @@ func build() *fixture {
 
 	// integers of every width
 	echo[int](qo, sk, "int")
-	add(argType{name: "int", gql: "Int", vals: conv(ints(-big, big), func(f float64) int { return int(f) }), wrong: nonNum})
+	add(argType{name: "int", gql: "Int", vals: conv(ints(-big, big), func(f float64) int { return int(f) }), wrong: outOf(-9.3e18, 9.3e18)})
 	echo[int8](qo, sk, "int8")
-	add(argType{name: "int8", gql: "Int", vals: conv(ints(math.MinInt8, math.MaxInt8), func(f float64) int8 { return int8(f) }), wrong: nonNum})
+	add(argType{name: "int8", gql: "Int", vals: conv(ints(math.MinInt8, math.MaxInt8), func(f float64) int8 { return int8(f) }), wrong: outOf(math.MinInt8, math.MaxInt8)})
 	echo[int16](qo, sk, "int16")
-	add(argType{name: "int16", gql: "Int", vals: conv(ints(math.MinInt16, math.MaxInt16), func(f float64) int16 { return int16(f) }), wrong: nonNum})
+	add(argType{name: "int16", gql: "Int", vals: conv(ints(math.MinInt16, math.MaxInt16), func(f float64) int16 { return int16(f) }), wrong: outOf(math.MinInt16, math.MaxInt16)})
 	echo[int32](qo, sk, "int32")
-	add(argType{name: "int32", gql: "Int", vals: conv(ints(math.MinInt32, math.MaxInt32), func(f float64) int32 { return int32(f) }), wrong: nonNum})
+	add(argType{name: "int32", gql: "Int", vals: conv(ints(math.MinInt32, math.MaxInt32), func(f float64) int32 { return int32(f) }), wrong: outOf(math.MinInt32, math.MaxInt32)})
 	echo[int64](qo, sk, "int64")
-	add(argType{name: "int64", gql: "Int", vals: conv(ints(-big, big), func(f float64) int64 { return int64(f) }), wrong: nonNum})
+	add(argType{name: "int64", gql: "Int", vals: conv(ints(-big, big), func(f float64) int64 { return int64(f) }), wrong: outOf(-9.3e18, 9.3e18)})
 	echo[uint](qo, sk, "uint")
-	add(argType{name: "uint", gql: "Int", vals: conv(ints(0, big), func(f float64) uint { return uint(f) }), wrong: nonNum})
+	add(argType{name: "uint", gql: "Int", vals: conv(ints(0, big), func(f float64) uint { return uint(f) }), wrong: outOf(0, 1.9e19)})
 	echo[uint8](qo, sk, "uint8")
-	add(argType{name: "uint8", gql: "Int", vals: conv(ints(0, math.MaxUint8), func(f float64) uint8 { return uint8(f) }), wrong: nonNum})
+	add(argType{name: "uint8", gql: "Int", vals: conv(ints(0, math.MaxUint8), func(f float64) uint8 { return uint8(f) }), wrong: outOf(0, math.MaxUint8)})
 	echo[uint16](qo, sk, "uint16")
-	add(argType{name: "uint16", gql: "Int", vals: conv(ints(0, math.MaxUint16), func(f float64) uint16 { return uint16(f) }), wrong: nonNum})
+	add(argType{name: "uint16", gql: "Int", vals: conv(ints(0, math.MaxUint16), func(f float64) uint16 { return uint16(f) }), wrong: outOf(0, math.MaxUint16)})
 	echo[uint32](qo, sk, "uint32")
-	add(argType{name: "uint32", gql: "Int", vals: conv(ints(0, math.MaxUint32), func(f float64) uint32 { return uint32(f) }), wrong: nonNum})
+	add(argType{name: "uint32", gql: "Int", vals: conv(ints(0, math.MaxUint32), func(f float64) uint32 { return uint32(f) }), wrong: outOf(0, math.MaxUint32)})
 	echo[uint64](qo, sk, "uint64")
-	add(argType{name: "uint64", gql: "Int", vals: conv(ints(0, big), func(f float64) uint64 { return uint64(f) }), wrong: nonNum})
+	add(argType{name: "uint64", gql: "Int", vals: conv(ints(0, big), func(f float64) uint64 { return uint64(f) }), wrong: outOf(0, 1.9e19)})
 	echo[MyInt](qo, sk, "myint")
-	add(argType{name: "myint", gql: "Int", vals: conv(ints(math.MinInt32, math.MaxInt32), func(f float64) MyInt { return MyInt(f) }), wrong: nonNum})
+	add(argType{name: "myint", gql: "Int", vals: conv(ints(math.MinInt32, math.MaxInt32), func(f float64) MyInt { return MyInt(f) }), wrong: outOf(math.MinInt32, math.MaxInt32)})
 
 	// floats
 	f64 := []val{{"0", 0.0, 0.0}, {"1.5", 1.5, 1.5}, {"-2.25", -2.25, -2.25}, {"1e10", 1e10, 1e10}, {"3", 3.0, 3.0}, {"0.1", 0.1, 0.1}}
@@ -595,5 +608,5 @@ func run(rp *explore.Report, tier string) {
 
 func init() {
 	reg.Register(&reg.Harness{Property: "C18", Name: "c18/arguments", Level: "exploration", Run: run,
-		Rule: "one echo field per argument type (all int/uint widths, named int/string, float32/64, bool, string, enum, []byte, time.Time, text-unmarshaler, pointers, optional-tagged, lists incl. nested and of pointers, nested input objects, a required input object whose own fields are all optional (alone, as a field and as a list element), a self-referential input object nested four levels deep) x boundary values x transport {literal, variable, default used (absent / null), default ignored; the argument in the operation or in a named fragment}, plus one three-argument field fed by three variables in every combination of {default, none} x {absent, null, value} and every declaration order, plus variables as elements of list literals / fields of object literals / inside nested lists (all 32 subsets of five positions); oracle: the Go value recorded by the resolver equals the value sent, exactly one resolver call; wrong JSON kinds, missing required and unknown arguments are client errors with zero resolver calls; omitted optional arrives as nil/zero"})
+		Rule: "one echo field per argument type (all int/uint widths, named int/string, float32/64, bool, string, enum, []byte, time.Time, text-unmarshaler, pointers, optional-tagged, lists incl. nested and of pointers, nested input objects, a required input object whose own fields are all optional (alone, as a field and as a list element), a self-referential input object nested four levels deep) x boundary values x transport {literal, variable, default used (absent / null), default ignored; the argument in the operation or in a named fragment}, plus one three-argument field fed by three variables in every combination of {default, none} x {absent, null, value} and every declaration order, plus variables as elements of list literals / fields of object literals / inside nested lists (all 32 subsets of five positions); oracle: the Go value recorded by the resolver equals the value sent, exactly one resolver call; wrong JSON kinds, numbers that are no value of the integer type (fractions, the neighbours of its range), missing required and unknown arguments are client errors with zero resolver calls; omitted optional arrives as nil/zero"})
 }
